@@ -153,6 +153,12 @@ func enumShapes(full bool, yield func(Case) bool) {
 									ms[k].For = 1 // see the package comment: one item, so both directive orders agree
 								}
 							}})
+							if k >= 1 {
+								// later members carrying a directive that the evaluator looks at early
+								// (v-if + v-pre on the first member has no documented meaning)
+								decos = append(decos, deco{"pre-" + strconv.Itoa(k), func(ms []Node, _, _ map[string]vals.V) { ms[k].Pre = true }})
+								decos = append(decos, deco{"once-" + strconv.Itoa(k), func(ms []Node, _, _ map[string]vals.V) { ms[k].Once = true }})
+							}
 							if base[k].Kind != "else" {
 								decos = append(decos, deco{"neg-" + strconv.Itoa(k), func(ms []Node, v, nx map[string]vals.V) {
 									// negate the condition and flip the variable: same truth assignment
@@ -356,6 +362,72 @@ func enumScope(yield func(Case) bool) {
 	}
 }
 
+// ---------------------------------------------------------------- chains in re-used slot content
+
+// enumSlot yields chains written as slot content of a component that uses its slot once (or
+// twice) per item of a list, the item being handed back as scoped slot prop su and driving the
+// conditions: the same slot content is evaluated k times with different truth assignments. The
+// list holds every assignment, in ascending or descending order, so every ordered pair of
+// choices (an earlier use taking member j, a later use taking member i) occurs.
+func enumSlot(yield func(Case) bool) {
+	ref := func(v string) string { return "su." + v }
+	for nElif := 0; nElif <= 2; nElif++ {
+		for _, hasElse := range []bool{false, true} {
+			spec := chainSpec{nElif: nElif, hasElse: hasElse, prefix: "m", vars: condNames[:4]}
+			total := 1 << spec.conds()
+			nm := len(spec.members("", ref))
+			type deco struct {
+				name string
+				mod  func([]Node)
+			}
+			decos := []deco{{"plain", func([]Node) {}}}
+			for k := 0; k < nm; k++ {
+				k := k
+				decos = append(decos,
+					deco{"for", func(ms []Node) {
+						ms[k].For = 2
+						if k == 0 {
+							ms[k].For = 1
+						}
+					}},
+					deco{"tmpl", func(ms []Node) { ms[k].Tmpl, ms[k].Kids = true, leafKid(ms[k].M) }})
+				if k >= 1 {
+					decos = append(decos, deco{"pre", func(ms []Node) { ms[k].Pre = true }})
+				}
+			}
+			for _, d := range decos {
+				for _, desc := range []bool{false, true} {
+					for _, twice := range []bool{false, true} {
+						for _, sep := range []string{"", "wcw"} {
+							ms := spec.members(sep, ref)
+							d.mod(ms)
+							var items []map[string]vals.V
+							for i := 0; i < total; i++ {
+								a := i
+								if desc {
+									a = total - 1 - i
+								}
+								it := spec.values(a)
+								it["id"] = vals.Str(fmt.Sprintf("u%d", i))
+								items = append(items, it)
+							}
+							kids := append([]Node{plain("a0", "")}, ms...)
+							kids = append(kids, plain("a1", sep))
+							body := []Node{plain("s0", ""),
+								{Kind: "slotted", M: "S", List: "rows", Var: "su", Twice: twice, Sep: sep, Kids: kids},
+								plain("s1", sep)}
+							c := Case{Nodes: body, Entry: "file", Lists: map[string][]map[string]vals.V{"rows": items}}
+							if !yield(c) {
+								return
+							}
+						}
+					}
+				}
+			}
+		}
+	}
+}
+
 // ---------------------------------------------------------------- family C (rapid)
 
 // specified values for condition variables: the documented part of the table.
@@ -373,6 +445,7 @@ type nestGen struct {
 	t        *rapid.T
 	next     int
 	maxDepth int
+	inSlot   bool
 }
 
 func (g *nestGen) marker() string {
@@ -443,8 +516,16 @@ func (g *nestGen) chain(depth int, loopVars []string, firstSep string) []Node {
 			if rapid.IntRange(0, 2).Draw(g.t, "forkids") == 0 {
 				n.Kids = g.kids(depth+1, loopVars, false)
 			}
-		case 4, 5, 6, 7:
+		case 4, 5, 6:
 			n.Kids = g.kids(depth+1, loopVars, false)
+		case 7:
+			if k > 0 { // later members only: v-if + v-pre / v-once on the first has no documented meaning here
+				if rapid.Bool().Draw(g.t, "pre") {
+					n.Pre = true
+				} else {
+					n.Once = true
+				}
+			}
 		}
 		out = append(out, n)
 	}
@@ -459,7 +540,15 @@ func (g *nestGen) siblings(depth int, loopVars []string, lo, hi int) []Node {
 		if len(out) == 0 && depth == 0 {
 			sep = ""
 		}
-		switch k := rapid.IntRange(0, 21).Draw(g.t, "kind"); {
+		switch k := rapid.IntRange(0, 23).Draw(g.t, "kind"); {
+		case k >= 22 && !g.inSlot && depth < g.maxDepth:
+			// slot content (re-)used once or twice per item of a list
+			g.inSlot = true
+			n := Node{Kind: "slotted", M: g.marker(), Sep: sep, Var: "su", Twice: rapid.IntRange(0, 3).Draw(g.t, "twice") == 0,
+				List: rapid.SampledFrom([]string{"rows1", "rows2"}).Draw(g.t, "slist")}
+			n.Kids = g.kids(depth+1, append(append([]string(nil), loopVars...), "su"), true)
+			g.inSlot = false
+			out = append(out, n)
 		case k == 20:
 			out = append(out, Node{Kind: "include", M: g.marker(), Sep: sep, Props: rapid.IntRange(7, 12).Draw(g.t, "props")})
 		case k == 21:
@@ -560,6 +649,18 @@ func genNest(rec *ev.Rec, open map[string]bool) func(*rapid.T) Case {
 					rec.Excluded(fForIf)
 				}
 			}
+		}
+		if open[fForIfPre] {
+			for _, n := range st.forIfPre {
+				if n.Pre {
+					n.Pre = false
+					rec.Excluded(fForIfPre)
+				}
+			}
+		}
+		// a v-once member chosen more than once is C16's subject: not generated here
+		for _, n := range st.onceRepeat {
+			n.Once = false
 		}
 		if open[fForSkip] {
 			for _, n := range st.forSkipped {
